@@ -815,8 +815,12 @@ ExitStatus Builder::Build(string* err) {
     // See if we can reap any finished commands.
     if (pending_commands) {
       // Tell command runner that if jobserver tokens become available while
-      // waiting, it should notify us - but only if we have more work to do.
-      const bool watch_jobserver = plan_.work_ready();
+      // waiting, it should notify us - but only if we have more work to do
+      // and may still start it.  Once the failure budget is spent nothing new
+      // is started, and a token sitting in the pool would wake us up over and
+      // over: a busy loop in which ppoll() never sleeps and therefore never
+      // delivers the SIGCHLD of a finished console command.
+      const bool watch_jobserver = failures_allowed && plan_.work_ready();
       BuildResult result =
           command_runner_->WaitForCommandOrJobserverToken(watch_jobserver);
 
